@@ -119,6 +119,65 @@ Section Pool.
     {| pl_buckets := match pl_buckets p with [] => [] | _ :: r => Some [] :: map (fun _ => None) r end;
        pl_len := pl_len p; pl_cur := O |}.
 
+  (* ATOMICITY.  `put` above is ONE step: PacketPool.Put holds the write lock from the
+     _contains test to the insertion, and every theorem about sequences of Puts (puts, run)
+     is about sequences of such atomic steps; concurrent callers are serialised by the lock.
+     The two halves are given separately below to state what goes wrong if they can be
+     scheduled separately (test under a read lock, insertion under the write lock, no re-test). *)
+
+  (* the part of Put after the test: insert into the current bucket and rotate when full *)
+  Definition put_insert (p : pool) (h : Z) : option pool :=
+    match nth_error (pl_buckets p) (pl_cur p), nth_error (pl_len p) (pl_cur p) with
+    | Some (Some m), Some l =>
+        let bs1 := set_nth (pl_cur p) (Some (h :: m)) (pl_buckets p) in
+        let l1 := l + 1 in
+        let ls1 := set_nth (pl_cur p) l1 (pl_len p) in
+        if LB <=? l1 then
+          let c := next_idx (pl_cur p) in
+          match nth_error bs1 c, nth_error ls1 c with
+          | Some _, Some _ =>
+              Some {| pl_buckets := set_nth c (Some []) bs1; pl_len := set_nth c 0 ls1; pl_cur := c |}
+          | _, _ => None
+          end
+        else Some {| pl_buckets := bs1; pl_len := ls1; pl_cur := pl_cur p |}
+    | _, _ => None
+    end.
+
+  (* a non-atomic Put: caller c first tests (SCheck c), later inserts (SInsert c) if its test
+     said "not there"; `seen` remembers each caller's test result; the result lists the callers
+     that were told "new" (Put returned true), in the order of their insertions *)
+  Inductive split_act := SCheck (c : nat) | SInsert (c : nat).
+
+  Fixpoint seen_lookup (c : nat) (seen : list (nat * bool)) : option bool :=
+    match seen with
+    | [] => None
+    | (c', b) :: r => if Nat.eqb c c' then Some b else seen_lookup c r
+    end.
+
+  Fixpoint put_split (p : pool) (h : Z) (seen : list (nat * bool)) (sched : list split_act)
+    : option (pool * list nat) :=
+    match sched with
+    | [] => Some (p, [])
+    | SCheck c :: r =>
+        match contains p h with
+        | None => None
+        | Some b => put_split p h ((c, b) :: seen) r
+        end
+    | SInsert c :: r =>
+        match seen_lookup c seen with
+        | Some false =>
+            match put_insert p h with
+            | None => None
+            | Some p1 =>
+              match put_split p1 h seen r with
+              | None => None
+              | Some (p2, ws) => Some (p2, c :: ws)
+              end
+            end
+        | _ => put_split p h seen r      (* its test said "duplicate" (or it never tested): returns false *)
+        end
+    end.
+
   (* a sequence of Put calls: the results *)
   Fixpoint puts (p : pool) (hs : list Z) : option (pool * list bool) :=
     match hs with
@@ -138,7 +197,8 @@ Section Pool.
 
   Record peer := {
     pr_id : Z;             (* p.ID() *)
-    pr_role : Z;           (* p.Role() flags *)
+    pr_role : Z;           (* p.Role() flags: the role this node resolved for the peer *)
+    pr_recv_role : Z;      (* p.RecvRole(): what the peer announced about itself; onPacket does not read it *)
     pr_conn : Z;           (* p.ConnType(), 0 = p2pConnTypeNone *)
     pr_protos : list Z     (* p.ProtocolInfos() *)
   }.
